@@ -473,7 +473,7 @@ func (k chanCore) Check(e zapcore.Entry, ce *zapcore.CheckedEntry) *zapcore.Chec
 }
 func (k chanCore) Write(e zapcore.Entry, fields []zapcore.Field) error {
 	switch e.Message {
-	case "receive new ethereum header.", "Ending block index negative. Cancelling run.", "failed to get events from bridgebank.",
+	case "receive new ethereum header.", "Ending block index negative. Cancelling run.", "failed to get events from bridgebank.", "failed to handle ethereum event.",
 		"failed to subscribe ethereum header.", "failed to subscribe new head.", "SetupWebsocketEthClient failed.", "failed to get network ID.":
 		k.c.events <- "log " + e.Message
 	}
@@ -700,6 +700,7 @@ func runLoopChild(specPath string) {
 		}
 		ck, kk := crashK(in.Out)
 		broadcasts, queries := 0, 0
+		stalled := false
 		for over := false; !over; {
 			ev := c.expectAny(245*time.Second, "getlogs ", "account", "broadcast ", "log ", "stopped")
 			if ev == "stopped" {
@@ -755,6 +756,19 @@ func runLoopChild(specPath string) {
 			case ev == "account":
 				if graceful && in.Out[1] == '1' {
 					stop()
+				}
+				if in.Out == "za" && !stalled {
+					// the sifnode endpoint accepts the request and does not answer.  A loop that waits is answered after
+					// 33 s (a late answer is an answer).  A loop that visibly goes on without the answer is left alone for
+					// what it does next — the node stays silent — and is killed after its next cursor write (or 25 s).
+					stalled = true
+					if c.hold(33 * time.Second) {
+						for deadline := time.Now().Add(25 * time.Second); time.Now().Before(deadline) && atomic.LoadInt64(c.journal) == c.lastIO; {
+							time.Sleep(100 * time.Millisecond)
+						}
+						c.checkPut()
+						c.die(idx)
+					}
 				}
 				if in.Out == "c1" && broadcasts == 0 {
 					c.die(idx)
@@ -1209,6 +1223,10 @@ func genLoopCase(r *Rng) loopCase {
 			if withEv {
 				out = []string{"c1", "c2", "c3", "c4"}[r.Intn(4)]
 			}
+		case 6:
+			if withEv && r.Intn(4) == 0 {
+				out = "za" // the sifnode endpoint stalls on this iteration's submission
+			}
 		case 5:
 			// graceful stop (SIGTERM / SIGINT) at a phase of the iteration
 			out = "g0" + []string{"t", "i"}[r.Intn(2)]
@@ -1271,7 +1289,7 @@ func fixCrashPoints(lc *loopCase) {
 		switch {
 		case len(in.Out) == 3 && in.Out[0] == 'g':
 			mo = "g" // graceful stop: the unchanged loop finishes the iteration, then returns; restart
-		case in.Out == "s":
+		case in.Out == "s" || in.Out == "za":
 			mo = "d" // a late answer is an answer
 		case in.Out == "sf" || in.Out == "fs":
 			mo = "f"
@@ -1322,6 +1340,13 @@ func init() {
 				addBadEvents(rng, &cases[i])
 			}
 			fixCrashPoints(&cases[i])
+		}
+		if n > 7 {
+			// directed: the sifnode endpoint accepts the account query of the submission of [100,110] (one lock in block 105)
+			// and stays silent; a second lock in block 115 follows
+			cases[7] = loopCase{p0: 100, place: [][2]int64{{1, 105}, {2, 115}},
+				inputs: []loopInput{{Kind: "h", N: 160, Out: "za"}, {Kind: "h", N: 170, Out: "d"}}}
+			fixCrashPoints(&cases[7])
 		}
 		if n > 6 {
 			// directed: graceful stops between query and broadcast, while the broadcast is served, during the sleep
